@@ -51,7 +51,7 @@ func genC12Ops(t *rapid.T, n int, label string) []C12Op {
 	var ops []C12Op
 	for i := 0; i < n; i++ {
 		ops = append(ops, C12Op{
-			Op:   rapid.SampledFrom([]string{"regtool", "regtool", "unreg", "listtools", "listtools", "call", "call", "regprompt", "listprompts", "getprompt", "regres", "listres", "readres", "regnotif"}).Draw(t, label+"op"),
+			Op:   rapid.SampledFrom([]string{"regtool", "regtool", "unreg", "listtools", "listtools", "call", "call", "regprompt", "listprompts", "getprompt", "regres", "listres", "readres", "regnotif", "regresnil", "listres"}).Draw(t, label+"op"),
 			Name: rapid.IntRange(0, len(c12Names)-1).Draw(t, label+"name"),
 		})
 	}
@@ -80,7 +80,7 @@ func c12Registry(op string) string {
 		return "tool"
 	case "regprompt", "listprompts", "getprompt":
 		return "prompt"
-	case "regres", "listres", "readres":
+	case "regres", "listres", "readres", "regresnil":
 		return "res"
 	}
 	return ""
@@ -243,6 +243,12 @@ func execC12(c C12Case) *Failure {
 			w.Srv.RegisterResource(&mcp.Resource{URI: uri, Name: name, Description: tag}, func(ctx context.Context, req *mcp.ReadResourceRequest) (mcp.ResourceContents, error) {
 				return mcp.TextResourceContents{URI: uri, Text: tag}, nil
 			})
+		case "regresnil":
+			// a registration without a handler: whether it is refused or kept (as an entry that cannot be read) is the library's
+			// choice; either way the registry stays well-formed
+			r.ver = int(verSeq.Add(1))
+			tag := fmt.Sprintf("%s:v%d", uri, r.ver)
+			w.Srv.RegisterResource(&mcp.Resource{URI: uri, Name: name, Description: tag}, nil)
 		case "listres":
 			list("resources/list", "resources", "uri")
 		case "readres":
@@ -289,21 +295,24 @@ func judgeC12(c C12Case, recs []*c12Rec) *Failure {
 		reg        bool
 		ver        int
 		start, end int64
+		maybe      bool // a registration the library may refuse (no handler): it may be listed, it need not be
 	}
 	writes := map[string][]wr{} // registry|key -> write ops
 	for _, r := range recs {
 		reg := c12Registry(r.op.Op)
 		switch r.op.Op {
 		case "regtool", "regprompt", "regres":
-			writes[reg+"|"+key(r.op)] = append(writes[reg+"|"+key(r.op)], wr{true, r.ver, r.start, r.end})
+			writes[reg+"|"+key(r.op)] = append(writes[reg+"|"+key(r.op)], wr{true, r.ver, r.start, r.end, false})
+		case "regresnil":
+			writes[reg+"|"+key(r.op)] = append(writes[reg+"|"+key(r.op)], wr{true, r.ver, r.start, r.end, true})
 		case "unreg":
-			writes[reg+"|"+key(r.op)] = append(writes[reg+"|"+key(r.op)], wr{false, 0, r.start, r.end})
+			writes[reg+"|"+key(r.op)] = append(writes[reg+"|"+key(r.op)], wr{false, 0, r.start, r.end, false})
 		}
 	}
 	// definitelyPresent during [s,e]: a registration completed before s and every removal completed before that registration began
 	definitelyPresent := func(reg, k string, s, e int64) bool {
 		for _, x := range writes[reg+"|"+k] {
-			if !x.reg || x.end >= s {
+			if !x.reg || x.end >= s || x.maybe {
 				continue
 			}
 			ok := true
@@ -357,6 +366,19 @@ func judgeC12(c C12Case, recs []*c12Rec) *Failure {
 			}
 			if r.dup != "" {
 				return Failf("C12/duplicate-entry/"+reg, "%s: %s lists %q twice: %v\nhistory: %s", c.Mode, r.op.Op, r.dup, r.order, hist())
+			}
+			known := map[string]bool{}
+			for ni, n := range c.names() {
+				if reg == "res" {
+					known[c.uris()[ni]] = true
+				} else {
+					known[n] = true
+				}
+			}
+			for _, k := range r.order {
+				if !known[k] {
+					return Failf("C12/phantom-entry/"+reg, "%s: %s [%d-%d] lists an entry %q that nobody registered: %v\nhistory: %s", c.Mode, r.op.Op, r.start, r.end, k, r.order, hist())
+				}
 			}
 			if r.ballast != c.Ballast {
 				return Failf("C12/missing-entry/"+reg, "%s: %s [%d-%d] shows %d of the %d entries registered before anything else\nhistory: %s", c.Mode, r.op.Op, r.start, r.end, r.ballast, c.Ballast, hist())
@@ -412,6 +434,15 @@ func judgeC12(c C12Case, recs []*c12Rec) *Failure {
 			}
 		case "call", "getprompt", "readres":
 			k := key(r.op)
+			handlerless := false
+			for _, x := range writes[reg+"|"+k] {
+				if x.maybe && x.start < r.end {
+					handlerless = true
+				}
+			}
+			if handlerless {
+				continue // the entry may have no handler: what reading it does is not this property's business
+			}
 			if r.raw != "" && !r.ok && r.code == 0 {
 				return TimingFailf("C12/call-no-answer/"+reg, "%s: %s %q: %.200s", c.Mode, r.op.Op, k, r.raw)
 			}
@@ -454,6 +485,7 @@ type C12NotifCase struct {
 	Regs       int  `json:"regs"`       // registrations per registrar (names cycle over a small pool, so names are re-registered)
 	Senders    int  `json:"senders"`    // client connections sending notifications
 	Notifs     int  `json:"notifs"`     // notifications per sender
+	Twin       bool `json:"twin,omitempty"` // a second server of the same kind lives in the process and gets handlers of its own registered at the same time
 }
 
 func registerNotif(server interface{}, method string, h mcp.ServerNotificationHandler) {
@@ -490,6 +522,24 @@ func execC12Notif(c C12NotifCase) *Failure {
 	var last sync.Map // name -> the sequence number of a handler registered for it
 	var seq atomic.Int64
 	var hits sync.Map // sequence number -> invoked
+	var twinHits atomic.Int64
+	if c.Twin {
+		// registries are per server: what is registered on the twin is never run by (or visible on) this server
+		tw := NewWorld(c.Mode, RegSpec{}, WorldOpt{})
+		defer tw.Close()
+		tsrv := serverOf(tw)
+		for r := 0; r < c.Registrars; r++ {
+			wg.Add(1)
+			go func(r int) {
+				defer wg.Done()
+				for k := 0; k < c.Regs; k++ {
+					registerNotif(tsrv, fmt.Sprintf("notifications/plug-%d", (r+k)%5), func(ctx context.Context, n *mcp.JSONRPCNotification) error { twinHits.Add(1); return nil })
+					registerNotif(tsrv, "notifications/twin-only", func(ctx context.Context, n *mcp.JSONRPCNotification) error { twinHits.Add(1); return nil })
+					registerNotif(tsrv, "notifications/stable", func(ctx context.Context, n *mcp.JSONRPCNotification) error { twinHits.Add(1); return nil })
+				}
+			}(r)
+		}
+	}
 	for r := 0; r < c.Registrars; r++ {
 		wg.Add(1)
 		go func(r int) {
@@ -538,6 +588,18 @@ func execC12Notif(c C12NotifCase) *Failure {
 	if got := stable.Load(); got != want {
 		return TimingFailf("C12/notification-handler-runs", "%s: the handler that stayed registered throughout ran %d times for %d notifications", where, got, want)
 	}
+	if c.Twin {
+		body := []byte(`{"jsonrpc":"2.0","method":"notifications/twin-only"}`)
+		if c.Mode == ModeStdio {
+			conns[0].in.Write(append(body, '\n'))
+		} else {
+			conns[0].Send(body, "", 0)
+		}
+		time.Sleep(3 * time.Millisecond)
+		if n := twinHits.Load(); n > 0 {
+			return Failf("C12/foreign-registry", "%s: %d notifications sent to this server ran handlers that were registered on another server of the process", where, n)
+		}
+	}
 	// every name now has one of the handlers registered last by some registrar: one more notification reaches exactly such a one
 	for p := 0; p < 5; p++ {
 		name := fmt.Sprintf("notifications/plug-%d", p)
@@ -581,7 +643,7 @@ func TestC12Notif(t *testing.T) {
 		Gen: func(t *rapid.T) C12NotifCase {
 			return C12NotifCase{Mode: rapid.SampledFrom([]Mode{ModeSJ, ModeLegacy, ModeLegacy, ModeStdio}).Draw(t, "mode"),
 				Registrars: rapid.IntRange(1, 6).Draw(t, "registrars"), Regs: rapid.IntRange(1, 40).Draw(t, "regs"),
-				Senders: rapid.IntRange(1, 3).Draw(t, "senders"), Notifs: rapid.IntRange(1, 60).Draw(t, "notifs")}
+				Senders: rapid.IntRange(1, 3).Draw(t, "senders"), Notifs: rapid.IntRange(1, 60).Draw(t, "notifs"), Twin: rapid.IntRange(0, 2).Draw(t, "twin") == 0}
 		},
 		Exec: execC12Notif,
 		NT: func(c C12NotifCase) (bool, []string) {
